@@ -31,6 +31,8 @@ def fold(rep, pid, family, sc, tot):
                 rep.add_violations([Violation(family, kind, detail, f5.build(algo, cfg, combo, tps, **kw), [], site=site, family="F5")])
             elif isinstance(choices, dict) and "f6item" in choices:
                 rep.add_violations([Violation(family, kind, detail, f6.build(choices["f6item"]), [], site=site, family="F6")])
+            elif isinstance(choices, dict) and "drift" in choices:
+                rep.add_violations([Violation(family, kind, detail, choices, [], site=site, family="F3d")])
             elif isinstance(choices, dict):   # F3: the case itself
                 rep.add_violations([Violation(family, kind, detail, choices, [], site=site, family=family)])
             else:
@@ -71,6 +73,11 @@ def run_f3(rep, pid, tier, seed=0):
     for tot in res:
         fold(rep, pid, "F3", None, tot)
     rep.cov["parts"]["F3"]["container_sets"] = len(cs)
+    dc = f3.drift_cases(tier)
+    res = pmap(f3.drift_work, chunked(dc, NPROC * 4), chunks=1)
+    for tot in res:
+        fold(rep, pid, "F3-drift", None, tot)
+    rep.cov["parts"]["F3-drift"]["container_sets"] = len(dc)
     rep.sample(dict(family="F3", containers=cs[len(cs) // 2], overcommit=True))
 
 
@@ -136,6 +143,11 @@ def replay(rec):
         sc = rec["scenario"]
         tr = []
         w = f5.run(sc, tr)
+    elif fam == "F3d":
+        c = rec["scenario"]["drift"]
+        sc = f3.drift_scenario((c[0], tuple(c[1]), tuple(c[2])), rec["scenario"]["overcommit"])
+        tr = []
+        w = f3.run(sc, tr)
     elif fam == "F3":
         sc = f3.scenario([tuple(c) for c in rec["scenario"]["conts"]], rec["scenario"]["overcommit"])
         tr = []
